@@ -141,6 +141,21 @@ CHECKS["C11"] = dict(
 NOT_YET = {
 }
 
+# round 10 (see DESIGN 5.1)
+ROUND10 = {
+ "C02": " Numeral probes with point and exponent (mantissa digits and true fractional digits on either side of every precision bound).",
+ "C03": " Undeclared values whose raw text looks like another kind, ends in an escaped backslash or quote, or is the empty string, under every additionalProperties setting.",
+ "C09": " A worker reduces at most 24 violating cases and reports later ones as enumerated.",
+ "C11": " Map-order scenarios with two erroneous added types whose names a non-total comparator would tie (letter case only, prefix, equal length, punctuation only, order flipping under case folding).",
+ "C13": " Blank runs at every place inside the rule object (behind the brace, around colons, before commas and the closing brace) with bare and quoted rule names in the three annotation forms.",
+ "C14": " All numeral spellings (sign, fraction, exponent) alone and nested; for cuts inside a number that has a complete prefix (1e, 1.): if Len answers n, the first n bytes must be one complete JSON text.",
+ "C15": " Heirs family: two types extending one base (or one another) whose inherited node - nested object, body, two levels deep, array - holds every non-empty subset of optional references to the heirs and the base, 6 roots.",
+ "C17": " (f) Check-time errors about a key: objects of 1..3 members with one key shortcut that cannot be a key (type integer / array / object / boolean / never added) at every member position, 3 nesting contexts, LF and CRLF: the error points at the first byte of that key.",
+ "C18": " The empty string and a blank string among the enum literals and probes.",
+}
+for _k, _v in ROUND10.items():
+    CHECKS[_k]["text"] += _v
+
 def main():
     props = [json.loads(l) for l in open(os.path.join(V, "properties.jsonl"))]
     checks = []
